@@ -139,6 +139,23 @@ def make_eq_sub(sub):
         if sub == "spec":
             b2.extra = ex
         check(b == b2 and b2 == b, "subclass instances equal when all compare-enabled attributes are equal", f"C10/eq/sub-{sub}-equal")
+        # transitivity across a class and its subclass: b3 differs from b only in the subclass's own attribute
+        if sub == "spec":
+            b3 = build(cls, x2, "m", y2, 0, 0, False, 0)
+            b3.extra = ex + 1
+            check(not (b == b3), "instances differing in a compare-enabled attribute are unequal", f"C10/eq/sub-{sub}-false-equal-own-attr")
+            if (a == b) and (a == b3):
+                check(b == b3, "equality is transitive, also across a class and its subclass", f"C10/eq/sub-{sub}-not-transitive", lambda: f"a == b and a == b3 but b != b3 (extra {ex!r} vs {ex + 1!r})")
+            if (b == a) and (a == b3):
+                check(b == b3, "equality is transitive, also across a class and its subclass", f"C10/eq/sub-{sub}-not-transitive")
+        # re-constructing a SUBCLASS instance from its own attribute values (inherited attributes are initialised through the parent)
+        kwv = {n_: getattr(b, n_) for n_ in ("x", "cb", "y", "hidden", "nums", "z", "extra") if getattr(b, n_, MISSING) is not MISSING}
+        if sub == "plain":
+            kwv.pop("extra", None)
+        kwv.pop("cb", None)
+        bz = cls(**{**kwv, "z": x1})  # z (no default, owned by the parent) takes a symbolic - possibly falsy - value
+        rz = cls(**{n_: getattr(bz, n_) for n_ in kwv if n_ != "z"}, z=bz.z)
+        check(rz == bz and bz == rz, "re-constructing an instance from its own attribute values gives an equal instance (subclass, inherited attributes)", f"C10/copy/sub-{sub}-reconstruct-unequal", lambda: f"{bz!r} vs {rz!r}")
         return "ok"
 
     h.__name__ = f"eq_sub_{sub}"
